@@ -38,6 +38,8 @@ type Program struct {
 	Funcs []*ssa.Function
 	cg    *callgraph.Graph
 	roles *Roles
+	rp    map[*ssa.Function]bool
+	bp    map[*ssa.Function]bool
 
 	LoadSeconds float64
 	NumFiles    int
